@@ -20,8 +20,8 @@ claimed = {
                   "Mul and Sqr for all operands of magnitude <= 8, Normalize for all limbs < 2^60 (canonical output, value preserved mod p), SetAdd / MulInt / Negate within their magnitude contracts, SetB32/GetB32 round trip and value.",
              ref="6/C08", note=NOTE + "Most of these obligations are discharged by the engine's canonical linear forms and interval arithmetic before a query is needed (reported per assertion in the evidence as folded); the group law, scalar code and tables (L1-L3) are not yet covered. "),
  "C13": dict(text="Bounded model checking (Int mode) of the wallet's payment arithmetic: parse_spend + make_signed_tx on requests of one or two destinations with amount strings of several shapes (0.dddddddd, integers of 1..3 (thorough 8, 12) digits, D.d, DD.dddd, 'D.', '.dddddddd', 12+8 digits; all digits arbitrary), arbitrary fee below 1 BTC, -f and -useallinputs, two owned outputs of arbitrary value: "
-                  "what is written pays every destination exactly the requested amount (the first minus the fee under -f, never wrapping), requests above all funds are refused, change = inputs - payment - fee to the change address, inputs are owned and only as many as needed; otherwise the tool exits before writing.",
-             ref="6/C13", note=NOTE + "sign_tx, write_tx_file and cleanExit are stubs under the engine (native replays use the real ones and read the written file back). Signature linkage and raw-transaction immutability are not yet covered. "),
+                  "what is written pays every destination exactly the requested amount (the first minus the fee under -f, never wrapping), requests above all funds are refused, change = inputs - payment - fee to the change address, inputs are owned and only as many as needed; otherwise the tool exits before writing; the -msg OP_RETURN output for message lengths of every push class; sign_tx on one input of six output kinds under two wallet configurations: the digest handed to the signer is the right algorithm's (legacy / BIP143 / BIP341) for this input, script code and amount, the key is the wallet's, the signature lands where the output type requires, nothing but scriptSig / witness changes, foreign outputs are left unsigned (native replays run the real signers and the script interpreter).",
+             ref="6/C13", note=NOTE + "sign_tx, write_tx_file and cleanExit are stubs under the engine (native replays use the real ones and read the written file back). The ECDSA / Schnorr signers are stubs under the engine (arbitrary r, s); multisig signing, -raw file handling and -batch are not covered. "),
  "C04": dict(text="Bounded model checking of block connection (commitTxs via ProcessBlockTransactions, with the context-free CheckTransaction rules in front as in PostCheckBlock) for a block of coinbase + 1..2 transactions (inputs may name the pre-state, the block's own coinbase and every transaction of the block: only an earlier one is spendable) "
                   "over a symbolic UTXO pre-state satisfying the representation invariant, arbitrary script verdicts, values compared as mathematical integers (Int mode): every input exists and is unspent, "
                   "no double spend, no spend of the block's own coinbase, coinbase maturity, money range of every output and total, inputs cover outputs, coinbase claim <= subsidy + fees; subsidy schedule for every height; BIP68 height locks (open known finding); legacy / P2SH / witness signature-operation counters equal Core's for every short script (open known finding behind OP_RETURN) and the 80000 cost limit with arbitrary counters.",
